@@ -136,7 +136,7 @@ def oracle_idw_point(stations, ql, qa, tol, max_sites, dl=dlon_short):
     return "weights", alts
 
 
-def oracle_bbox(stations, dconv_lons, qlons, qlats, tol):
+def oracle_bbox(stations, qlons, qlats, tol):
     """-> (definitely_in, dontcare) sets of station indices. The box is numeric in the query's convention."""
     conv = q_convention(qlons)
     lo, hi = min(qlons) - tol, max(qlons) + tol
@@ -429,7 +429,7 @@ def check_case(case, ds=None):
 
     # ------------------------------------------------------------------ bbox
     if method == "bbox":
-        din, dc = oracle_bbox(stations, None, qlons, qlats, tol)
+        din, dc = oracle_bbox(stations, qlons, qlats, tol)
         got = None
         if status == "ok":
             got = [decode_station(a[k], n) for k in range(a.shape[0])]
